@@ -178,6 +178,20 @@ class Heap(object):
         fel = z3.Function("C_el", *(sorts + [IntS, IntS, IntS]))
         return VList(flen(*(args + [x.t])), get=lambda i: VRef(fel(*(args + [x.t, i]))), et=None)
 
+    def pre(self, x):
+        """P(x): the nodes of the subtree of x in preorder (spec function of the shape arrays)"""
+        args = self._shape_args()
+        sorts = [a.sort() for a in args]
+        flen = z3.Function("P_len", *(sorts + [IntS, IntS]))
+        fel = z3.Function("P_el", *(sorts + [IntS, IntS, IntS]))
+        return VList(flen(*(args + [x.t])), get=lambda i: VRef(fel(*(args + [x.t, i]))), et=None)
+
+    def pre_idx(self, x, y):
+        """position of y in P(x)"""
+        args = self._shape_args()
+        f = z3.Function("P_idx", *([a.sort() for a in args] + [IntS, IntS, IntS]))
+        return VInt(f(*(args + [x.t, y.t])))
+
     def depth(self, x):
         f = z3.Function("G_depth", self.f["parent"].sort(), IntS, IntS)
         return VInt(f(self.f["parent"], x.t))
